@@ -411,6 +411,17 @@ func legB(c *core.Ctx, sub int) {
 			}
 		}
 	}
+	// proc fragments ([(...)]) behind every kind of earlier fragment, complete and cut short: the
+	// reader looks for the ")]" that ends the proc, and earlier fragments may hold one too
+	if sub == 0 {
+		for _, pre := range []string{"$", "$.a", "$[0]", "$[?(@.x)]", "$[')]']", "$[(0)]", "$..", "$[*]", "$[1:2]", "@"} {
+			for _, proc := range []string{"[(1)]", "[(@.length-1)]", "[(@.length - 1)]", "[(", "[(1", "[(1)", "[()]", "[(1)][(2)]", "[(')]')]"} {
+				tryJP(c, pre+proc)
+				tryJP(c, pre+proc+".b")
+				c.Add("proc_fragment_texts", 2)
+			}
+		}
+	}
 	// well-formed scripts with parentheses that are not needed (printed scripts
 	// never hold any, and the token sequences below are too short for them):
 	// operand op operand with one or two pairs around either operand and the whole
